@@ -80,7 +80,7 @@ def main():
                     fh.write(json.dumps({"kf": kf, "clause": f["clause"], "hist": f["hist"], "init": f.get("init")}) + "\n")
     if drift:
         print("DRIFT property=%s %d steps where the model and the code disagree (first: %s)"
-              % (pid, len(drift), json.dumps({k: drift[0][k] for k in ("clause", "hist")})[:400]))
+              % (pid, len(drift), json.dumps({k: drift[0][k] for k in ("clause", "hist")})[:int(os.environ.get("VERIF_DRIFTLEN", "400"))]))
     rdir = os.path.join(OUT, "replay")
     os.makedirs(rdir, exist_ok=True)
     if not a.replay:
